@@ -95,6 +95,24 @@ transformations:
     mapping:
       fA: mappedA
 """,
+    """
+name: fields
+priority: 10
+transformations:
+  - id: sf
+    type: set_field
+    fields:
+      - host
+  - id: af
+    type: add_field
+    field: user
+  - id: rf
+    type: remove_field
+    field: nosuch
+postprocessing:
+  - type: template
+    template: '{{ query }} | table {{ rule.fields | join(",") }}'
+""",
 ]
 
 NK = 17
@@ -299,7 +317,7 @@ def c08_concrete(k0: int, k1: int, k2: int, collect: bool, bk: int, pipe: int) -
     return check([k0, k1, k2], collect, bk, pipe)
 
 
-SETUPS = [(0, 1), (1, 1), (0, 2), (0, 0), (0, 3)]  # (backend, pipeline)
+SETUPS = [(0, 1), (1, 1), (0, 2), (0, 0), (0, 3), (0, 4)]  # (backend, pipeline)
 OBLIGATIONS = (
     [Ob("c08_correlation", {}, 600)]
     + [Ob("c08_isolation", {"BK": bk, "PIPE": pp, "K0LO": lo, "K0HI": lo + (4 if lo == 6 else 5)}, 600) for bk, pp in SETUPS for lo in (0, 6, 11)]
